@@ -22,8 +22,10 @@ REPO = os.environ.get("VF_REPO", "/repo")
 SRC = os.path.join(REPO, "spqlios")
 HARNESS = os.path.join(VERIF, "harness")
 SHIM = os.path.join(VERIF, "shim")
-OUT = os.path.join(VERIF, "out")
-EVID = os.path.join(VERIF, "evidence")
+# a run on a scratch copy of the repository (VF_REPO=<copy>, used to try seeded changes in parallel) keeps its replay records and
+# evidence apart: /verif/evidence is only ever written by runs against /repo itself
+OUT = os.path.join(VERIF, "out") if REPO == "/repo" else os.path.join(VERIF, "out", "scratch-" + re.sub(r"[^A-Za-z0-9]", "_", REPO))
+EVID = os.path.join(VERIF, "evidence") if REPO == "/repo" else os.path.join(OUT, "evidence")
 KNOWN = os.path.join(VERIF, "known_findings.txt")
 
 CPU_HOOK = ["-D__builtin_cpu_supports=vf_cpu_supports", "-include", os.path.join(HARNESS, "cpu_hook.h")]
@@ -56,6 +58,8 @@ class Scratch:
 def _limits(mem_gb):
     def f():
         os.setsid()
+        if mem_gb is None:
+            return  # sanitizer run-times reserve terabytes of address space and refuse to start under RLIMIT_AS
         b = int(mem_gb * (1 << 30))
         resource.setrlimit(resource.RLIMIT_AS, (b, b))
     return f
@@ -234,9 +238,10 @@ class BuildError(Exception):
     pass
 
 
-def tables_dir(ctx, ms=(), ns=()):
-    """directory containing vf_tables.h dumped from a native build of the working tree (cached per (ms,ns))"""
-    key = ("tables", tuple(ms), tuple(ns))
+def tables_dir(ctx, ms=(), ns=(), ls=()):
+    """directory containing vf_tables.h dumped from a native build of the working tree (cached per (ms,ns,ls));
+    ls: NTT sizes for which only the level metadata (no power table) is dumped"""
+    key = ("tables", tuple(ms), tuple(ns), tuple(ls))
     with ctx.lock:
         if key in ctx.libcache:
             return ctx.libcache[key]
@@ -247,7 +252,8 @@ def tables_dir(ctx, ms=(), ns=()):
                               timeout=300, mem_gb=64)
         if rc != 0:
             raise BuildError("table dumper does not build:\n" + (o + e)[-3000:])
-        rc, o, e, w, to = run([exe, "M", ",".join(str(x) for x in ms) or "1", "N", ",".join(str(x) for x in ns) or "1"], timeout=600, mem_gb=64)
+        rc, o, e, w, to = run([exe, "M", ",".join(str(x) for x in ms) or "1", "N", ",".join(str(x) for x in ns) or "1"] +
+                              (["L", ",".join(str(x) for x in ls)] if ls else []), timeout=600, mem_gb=64)
         if rc != 0 or "VF_UNKNOWN_FUNCTION" in o or "#error" in o:
             raise BuildError("table dumper failed (rc=%d): %s %s" % (rc, e[-1000:], [l for l in o.split("\n") if "UNKNOWN" in l or "#error" in l][:5]))
         with open(os.path.join(d, "vf_tables.h"), "w") as f:
@@ -680,8 +686,14 @@ def replay_record(ctx, rec, d, extra_src=()):
             f.write("%s\n" % x)
     env = dict(os.environ)
     env["ASAN_OPTIONS"] = "detect_leaks=0:abort_on_error=0:halt_on_error=1"
-    rc, o, e, w, to = run([exe, inp], timeout=60, mem_gb=1 << 20, env=env)
+    env["TSAN_OPTIONS"] = "halt_on_error=1:report_signal_unsafe=0"
+    rc, o, e, w, to = run([exe, inp], timeout=120, mem_gb=None, env=env)
     text = (o + e)[-4000:]
+    if rec.get("sanitizer") == "thread":
+        # a ThreadSanitizer confirmation counts only if the run-time started and reported a race (or the harness' own assertion failed)
+        if to:
+            return None, "ThreadSanitizer run did not terminate\n" + text
+        return ("ThreadSanitizer: data race" in text or "VF_ASSERT_FAILED" in text), text
     if to:
         return True, "native run did not terminate within 60 s (runaway loop)\n" + text
     if "VF_ASSUME_FAILED" in text:
